@@ -200,24 +200,31 @@ func vpH_C11_T_reconnect_verify() {
 // Stop / StopWithContext (the Metrics calls inside the stop call's critical section are scheduling points).
 func vpH_C11_T_stop_vs_notify() {
 	H := time.Second
-	s := vpConnInstance(H, 2*H, map[string]bool{"connection_disconnected": true})
+	s := vpConnInstance(H, 2*H, map[string]bool{"connection_disconnected": true, "connection_reconnected": true, "verifying_leadership_after_reconnect": true})
 	s.m.yieldOn = true
 	s.kv.opLeft = 40
 	variant := vpChoose("variant", 2)
+	kind := vpChoose("notification", 2) // 0: a disconnect, 1: (after an earlier disconnect) a reconnect
+	if kind == 1 {
+		s.notify(0)
+	}
 	stopped := false
 	go func() {
-		vpYieldLazy("notify.D", H)
-		s.notify(0)
+		vpYieldLazy("notify", H)
+		s.notify(kind)
 	}()
 	time.Sleep(H / 4)
 	_ = vpDoStop(s.e, variant)
 	stopped = true
+	opsAtRet := len(s.st.issued)
 	time.Sleep(6 * time.Second)
 	vpQuiesce()
 	vpCover("C11.stop-vs-notify")
 	vpAssert("C11.no-deadlock", vpDeadlocked() == "" && stopped)
 	vpAssert("C09.no-deadlock", vpDeadlocked() == "" && stopped)
 	vpAssert("C11.threads-end", vpThreadsAlive() == 0)
+	vpAssert("C09.no-op-after-stop", len(s.st.issued) == opsAtRet) // e.g. a reconnect verification started behind the stop's back
+	vpAssert("C09.no-claim-after-stop", !s.e.IsLeader())
 }
 
 func vpH_C11_T_stop_vs_expiry() {
@@ -239,6 +246,7 @@ func vpH_C11_T_stop_vs_expiry() {
 	vpAssert("C11.no-deadlock", vpDeadlocked() == "" && stopped)
 	vpAssert("C11.threads-end", vpThreadsAlive() == 0)
 	vpAssert("C11.stopped", !s.e.IsLeader())
+	vpAssert("C08.demote-once-per-edge", s.cb.promotes == 1 && s.cb.demotes == 1) // one term, ended once (by the stop or by the expiry)
 }
 
 // vpH_C11_T_flapping_verify: the connection flaps while the verification started by the first reconnect is
